@@ -607,6 +607,18 @@ func (w *srvWorld) touch(m *srvModel) (sig, what string) {
 		}
 	}
 	safely(func() { w.httpDo("GET", "/api/v1/authorized-servers", nil) })
-	safely(func() { w.httpDo("GET", "/api/v1/equipment", nil) })
+	// the equipment list, compared on the spot as well
+	var code int
+	var eq map[uint32]glow.EquipmentAuthorization
+	if p := safely(func() { code, eq = w.equipment() }); p == "" && code == 200 && sig == "" {
+		if len(eq) != len(m.Devices) {
+			sig, what = "equipment-list-differs", fmt.Sprintf("equipment list has %d devices, the server holds %d", len(eq), len(m.Devices))
+		}
+		for id, ea := range m.Devices {
+			if got, ok := eq[id]; sig == "" && (!ok || !bytes.Equal(refAuthBytes(got), refAuthBytes(ea))) {
+				sig, what = "equipment-list-differs", fmt.Sprintf("equipment list entry for id %d is not the accepted authorization", id)
+			}
+		}
+	}
 	return
 }
